@@ -505,6 +505,18 @@ def o_asm(case, T):
         require(pl.shape == (NY, NX), "plane %r has shape %r", p, pl.shape)
         seen[p] = True
     require(seen.all(), "planes_yx does not visit the whole mosaic")
+    if window is not None and len(window) == 2:
+        # planes of a YX window: plane k of planes_yx(window) selects the window of plane k of the whole mosaic
+        wplanes = list(asm.planes_yx(roi))
+        require(len(wplanes) == nplanes, "planes_yx(window) gives %d planes, expected %d", len(wplanes), nplanes)
+        lead = len(prefix) if blocks else 0
+        for p, idx in zip(wplanes, np.ndindex(tuple([*(prefix if blocks else []), *(postfix if blocks else [])]))):
+            mine = fullx[(*idx[:lead], *roi, *idx[lead:])]
+            theirs = fullx[p]
+            require(theirs.shape == mine.shape and np.array_equal(np.asarray(theirs, dtype="float64"), np.asarray(mine, dtype="float64"), equal_nan=True),
+                    "planes_yx(%r): plane %r selects shape %r values %r, the window of that plane of the mosaic is shape %r values %r (mosaic %dx%d)",
+                    window, idx, np.shape(theirs), np.ravel(theirs)[:8].tolist(), np.shape(mine), np.ravel(mine)[:8].tolist(), NY, NX)
+        T.cls("planes_of_a_window")
     # classification
     absent = len(case["present"]) < len(chy) * len(chx)
     cuts = False
